@@ -54,8 +54,8 @@ LEVEL_TEXT = (
     "initial_delay_law (every spawn), idle_only_law, one_shot, attempt_law. The idle clause is PARTIAL: idle_law_partial "
     "(induction over the run sequence) bounds every start by idle after the last change the operator REGISTERED "
     "(idle_reset_time); idle_reset_flip_back_witness proves that a change restoring the last-handled essence is not "
-    "registered (finding C10-F1, replayed on the real operator in every run). permanent_reruns_witness proves that a "
-    "permanent failure does not end the timer (known finding C11-F1). "
+    "registered (finding C10-F1, replayed on the real operator in every run). permanent_is_last / failed_is_last: a run "
+    "that failed for good (classify_permanent) has no successor run in any run sequence. "
     "The model is hand-written; its branch chain, loop conditions, sleep arithmetic and statement skeleton are re-extracted "
     "from the AST on every run and proved equal (T), and its step function is compared run by run, tick-exact, with the "
     "real operator in seeded closed-loop simulations (S). Assumes interval > 0 where present and no handler timeout.")
@@ -64,9 +64,9 @@ TIE = ("T: post-run branch chain + idle-gate/poll expressions + statement skelet
 THEOREMS = [("Kopf.Props.C10", "Kopf.C10." + n) for n in [
     "no_overlap_step", "no_overlap", "interval_law", "sharp_grid", "error_delay_law", "classify_temporary",
     "classify_arbitrary", "initial_delay_law", "idle_law_partial", "reset_on_unhandled_change", "idle_reset_flip_back_witness", "idle_only_law", "one_shot", "attempt_law",
-    "permanent_reruns_witness"]]
+    "permanent_is_last", "failed_is_last", "classify_permanent"]]
 TIE_THEOREMS = [("Kopf.Tie.C10", "Kopf.C10.Tie." + n) for n in [
-    "post_eq", "idle_cond_eq", "idle_delay_eq", "poll_cond_eq", "poll_delay_eq", "shape_eq", "idle_step_eq", "poll_step_eq"]]
+    "post_eq", "idle_cond_eq", "idle_delay_eq", "poll_cond_eq", "poll_delay_eq", "shape_eq", "stopper_guards_eq", "idle_step_eq", "poll_step_eq"]]
 RULE = ("seeded scenarios: 1-2 timers on 1-2 objects, all 16 presence combinations of interval/sharp/idle/initial_delay "
         "(stratified), scripted results ok/ok+result/ok+patch/temporary(delay)/arbitrary/permanent with function durations "
         "0, <, =-1tick, =, =+1tick, > the interval (1.5x, 2x, 2.5x), backoff/retries/errors options, optional update handler "
@@ -81,8 +81,7 @@ TRUSTED = ["harness/sim (virtual-time loop, fake API server with 1/64 s latency,
            "pyextract vocabulary for daemons._timer (statement recognisers, arithmetic atoms)"]
 ASSUMPTIONS = ["interval > 0 and idle > 0 where present (interval = 0 divides by zero in the sharp branch / spins otherwise)",
                "handler `timeout` unset (its strict pre-check can end a retry series without invoking the function); retries >= 1",
-               "the stopper is not modelled: it only truncates a run sequence (idle-only timers never get it set before the end "
-               "of a scenario: C09 F1)",
+               "the stopper is not modelled: it only truncates a run sequence (every loop condition carries it: stopper_guards_eq)",
                "initial_delay is a number (callables are evaluated by the same line of code)"]
 
 F1_SIG = {"site": "processing._detect_causes",
@@ -174,8 +173,17 @@ def _post_result(stmts: list[ast.stmt]) -> str | None:
         return f"Post.sleep {_arith(arg, env)}"
     if isinstance(st, ast.While) and not st.orelse and len(st.body) == 1:
         inner = _sleep_arg(st.body[0])
-        if inner is not None and pyextract.norm(st.test) == "memory.idle_reset_time <= started":
+        if inner is not None and _poll_test(st.test) is not None:
             return f"Post.idlePoll {_arith(inner, env)}"
+    return None
+
+
+def _poll_test(test: ast.expr) -> ast.expr | None:
+    """`memory.idle_reset_time <= started and not stopper.is_set()` → the comparison (the stopper conjunct is required)"""
+    if isinstance(test, ast.BoolOp) and isinstance(test.op, ast.And) and len(test.values) == 2 \
+            and pyextract.norm(test.values[0]) == "memory.idle_reset_time <= started" \
+            and pyextract.norm(test.values[1]) == "not stopper.is_set()":
+        return test.values[0]
     return None
 
 
@@ -223,9 +231,10 @@ def extract(ctx: Ctx) -> None:
     idle_cond = idle_delay = post_body = None
     for st in loop.body:
         text = pyextract.norm(st)
-        if isinstance(st, ast.If) and pyextract.norm(st.test) == "state.done" and not st.orelse and len(st.body) == 1 \
+        if isinstance(st, ast.If) and pyextract.norm(st.test) == "state.done and (not state.counts.failure)" and not st.orelse \
+                and len(st.body) == 1 \
                 and pyextract.norm(st.body[0]) == "state = progression.State.from_scratch().with_handlers([handler])":
-            steps.append("Step.resetIfDone")
+            steps.append("Step.resetUnlessFailed")
         elif isinstance(st, ast.If) and pyextract.norm(st.test) == "handler.idle is not None" and not st.orelse:
             if len(st.body) != 2 or not isinstance(st.body[0], ast.While) or st.body[0].orelse \
                     or pyextract.norm(st.body[1]) != "if stopper.is_set():\n    continue":
@@ -267,10 +276,10 @@ def extract(ctx: Ctx) -> None:
     if idle_cond is None or idle_delay is None or post_body is None:
         raise ExtractError("_timer loop: idle gate or post-run chain not found")
     # the poll loop's condition/sleep are inside the chain; extract them separately for their own tie
-    poll = [n for n in ast.walk(loop) if isinstance(n, ast.While) and pyextract.norm(n.test) == "memory.idle_reset_time <= started"]
+    poll = [n for n in ast.walk(loop) if isinstance(n, ast.While) and _poll_test(n.test) is not None]
     if len(poll) != 1:
-        raise ExtractError("_timer: idle-only poll loop not found")
-    poll_cond = _cmp(poll[0].test, {})
+        raise ExtractError("_timer: idle-only poll loop (with its stopper guard) not found")
+    poll_cond = _cmp(_poll_test(poll[0].test), {})
     parg = _sleep_arg(poll[0].body[0]) if len(poll[0].body) == 1 else None
     if parg is None:
         raise ExtractError("_timer: the poll loop does not sleep")
@@ -285,6 +294,8 @@ def extract(ctx: Ctx) -> None:
     out += f"def idleDelay (a : GateAtoms) : Int := {idle_delay}\n\n"
     out += f"def pollCond (a : GateAtoms) : Bool := {poll_cond}\n\n"
     out += f"def pollDelay (a : GateAtoms) : Int := {poll_delay}\n\n"
+    # the main loop's, the idle gate's and the poll loop's conditions were all matched WITH `not stopper.is_set()` above
+    out += "def stopperGuards : List LoopId := [LoopId.main, LoopId.idleGate, LoopId.idlePoll]\n\n"
     out += "end Kopf.C10.Extracted\n"
     leanio.write_generated("Kopf/Extracted/C10.lean", out)
 
@@ -628,7 +639,7 @@ def gen_scenario(rng: Any, seed: int, combo: int) -> dict:
         n += 1
         t = rng.randrange(int(2.5 * TPS), int(end * TPS)) / TPS
         timeline.append([t, "edit", rng.choice(names), {"spec": {"x": n}}])
-    if not idle_only:
+    if True:    # since 6ccf081 an idle-only timer's stopper may be set (a stall there is counted and skipped)
         respawn = rng.random()
         if respawn < 0.25:
             # a label filter on the first timer; toggle it off and on again: the task is stopped and respawned
@@ -788,6 +799,11 @@ def oracle(ctx: Ctx, sc: dict, tr: dict, stats: dict | None = None) -> None:
             if inst_of(a) is not i or i is None:
                 continue        # a respawn in between: the gap belongs to the initial delay
             kind, d = _kind_of(a, cfg)
+            if kind == "final":
+                # docs/timers.rst: "the timer stops forever and is not retried"
+                fail("permanent", f"timer {hid}: run at {b['t']} (retry={b.get('retry')}) after the run at {a['t']} had failed for good ({a.get('outcome')})",
+                     uid=uid, id=hid, prev=a, call=b)
+                continue
             pat = patched_of(a)
             rt = None if pat is None else pat - a["t_end"]
             lastc = last_cycle_upto(b["t"])
@@ -899,7 +915,13 @@ def abstract(sc: dict, tr: dict) -> list[dict]:
             items.append({"what": "crashed", "inst": {"uid": inst["uid"], "id": inst["id"], "how": inst.get("how"), "spin": inst.get("spin", False),
                                                       "exit": inst["exit"]}})
         alive_until = inst["exit"] if inst["exit"] is not None else end
-        iters = inst["iters"]
+        # runs = iterations in which the function was invoked (or is still running); after a run that failed for
+        # good the loop goes round with nothing awakened: those empty iterations are not runs
+        empty = [it for it in inst["iters"] if it["t1"] is not None and it.get("outcome") is None]
+        iters = [it for it in inst["iters"] if not (it["t1"] is not None and it.get("outcome") is None)]
+        if empty:
+            items.append({"what": "empty", "n": len(empty), "after_failure": any(
+                (x.get("outcome") or {}).get("final") and (x.get("outcome") or {}).get("exc") for x in iters if x["t0"] <= empty[0]["t0"])})
         presence = (cfg["interval"] is not None, cfg["sharp"], cfg["idle"] is not None, cfg["initial_delay"] is not None)
         # spawn → first run
         hi = iters[0]["t0"] if iters else alive_until
@@ -922,7 +944,8 @@ def abstract(sc: dict, tr: dict) -> list[dict]:
             obs = _obs(inst, it["p1"], hi)
             o = it["outcome"]
             impl = {"start": ticks(nxt["t0"]) if nxt else None, "attempt": nxt["attempt"] if nxt else None,
-                    "done": bool(o["final"]), "delay": None if o["final"] or o["delay"] is None else ticks(o["delay"])}
+                    "done": bool(o["final"]), "failed": bool(o["final"] and o["exc"]),
+                    "delay": None if o["final"] or o["delay"] is None else ticks(o["delay"])}
             iv = cfg["interval"] or cfg["idle"] or 1.0
             dur = it["t1"] - it["t0"]
             durc = "0" if dur == 0 else "<" if dur < iv - T else "=-1" if dur == iv - T else "=" if dur == iv else "=+1" if dur == iv + T else ">"
@@ -979,8 +1002,8 @@ def compare(ctx: Ctx, sc: dict, item: dict, out: Any) -> None:
         if item["call_t_end"] != item["req"][2]["ended"]:
             ctx.tie_fail("probe and handler log disagree on the function's end", {**wh, "call_t_end": item["call_t_end"]})
         # the outcome classification and the next retry kwarg
-        ctx.compare("C10 outcome classification", {"done": impl["done"], "delay": impl["delay"]},
-                    {"done": m["done"], "delay": m["delay"]}, wh)
+        ctx.compare("C10 outcome classification", {"done": impl["done"], "failed": impl["failed"], "delay": impl["delay"]},
+                    {"done": m["done"], "failed": m["failed"], "delay": m["delay"]}, wh)
     if impl["start"] is not None:
         model: dict[str, Any] = {"start": res[1] if res[0] == "start" else res}
         real: dict[str, Any] = {"start": impl["start"]}
@@ -1000,6 +1023,8 @@ def compare(ctx: Ctx, sc: dict, item: dict, out: Any) -> None:
             ctx.tie_fail("C10: the model says the loop breaks, the timer task did not return there",
                          {"input": wh, "impl": {"how": item.get("how"), "exit": item.get("exit")}, "model": res})
         ctx.count("gate", "one-shot-ended")
+    elif res[0] == "never":
+        ctx.count("gate", "failed-for-good:no-further-run")
     else:
         ctx.count("gate", "open-ended:" + res[0])
 
@@ -1049,6 +1074,12 @@ def _evaluate(ctx: Ctx, scenarios: list[dict], results: list[dict], stats: dict,
                 continue
             if item["what"] == "unmatched":
                 ctx.count("gate", "iteration-without-function-call")
+                continue
+            if item["what"] == "empty":
+                ctx.count("gate", "empty-iterations-after-a-final-failure" if item["after_failure"] else "empty-iterations-otherwise", item["n"])
+                if not item["after_failure"]:
+                    ctx.tie_fail("C10: a loop iteration invoked nothing although no run had failed for good",
+                                 {"input": {"scenario": sc}, "impl": item, "model": "every iteration is a run"})
                 continue
             if item["what"] == "crashed":
                 ctx.tie_fail("C10: the timer task ended with an exception / spun without suspending (the model's loop does neither)",
